@@ -473,14 +473,19 @@ TABLE['C16'] = dict(
     ])
 
 TABLE['C17'] = dict(
-    imports=[A + 'CacheThm', A + 'Glue', A + 'MomentsThm', A + 'MemoThm', A + 'ShareThm', A + 'EpochKeyThm'],
+    imports=[A + 'CacheThm', A + 'Glue', A + 'MomentsThm', A + 'MemoThm', A + 'ShareThm', A + 'EpochKeyThm', A + 'ParallelThm'],
     summary='Proved on the state-machine model of StateSpace caching (epoch, S, per-epoch cache, drop_S, drop_cache, first access of '
             'states): for EVERY history of operations every read of S returns the matrix of the epoch in force, with caching on or off; '
             'the number of recomputations is bounded; the repaired consumer (update_epoch before reading) is correct and the pre-fix '
             'stale read is refuted by a kernel-checked 2-step history. Query procedures are sequences of these operations followed by '
-            'pure evaluation (code_accumulate_pointwise). Partial: process pools (imap order) are a runtime parameter.',
+            'pure evaluation (code_accumulate_pointwise). Worker pools: for EVERY completion schedule the ordered iterator hands the results back in data order, so the assembled SFS vectors and matrices equal the sequential ones (ParallelThm); the operating system scheduler itself is the quantified parameter.',
     theorems=[
         ('refinement', 'PG.Cache.C17_refinement', 'every answer of every history equals the cache-free specification'),
+        ('pool_schedule_irrelevant', 'PG.Parallel.parallelize_schedule_irrelevant', 'utils.parallelize: for every completion schedule of the worker pool, with or without progress bar, the result list is data.map f'),
+        ('pool_sfs_vector', 'PG.Parallel.sfs_moment_parallel_eq_sequential', 'the SFS vector assembled from a parallel run has f(i) at every bin of the index list and 0 elsewhere, for every schedule'),
+        ('pool_sfs_matrix', 'PG.Parallel.sfs_cov_parallel_eq_sequential', 'the same for the matrix of SFSDistribution.cov'),
+        ('pool_unordered_iff', 'PG.Parallel.imapUnordered_eq_map_iff', 'an unordered iterator gives the data order exactly for the identity schedule'),
+        ('pool_unordered_counterexample', 'PG.Parallel.unordered_counterexample', 'imap_unordered behind the progress bar (a seeded change): values land in the wrong frequency class'),
         ('epoch_key_sound', 'PG.EpochKey.key_sound_table', 'the CONCRETE cache key (what Epoch.__hash__ hashes): equal keys give the same table of sizes and rates to the transitions'),
         ('epoch_key_cache', 'PG.EpochKey.cache_instantiated_table', 'the cache model instantiated with concrete epoch objects: after any history every S read is the matrix of the current epoch object itself'),
         ('epoch_key_complete', 'PG.EpochKey.generated_updateDrops_iff', 'between two epochs of one demography update_epoch drops S exactly if some size or rate differs'),
